@@ -14,6 +14,18 @@ Theorem C18_discovery_order_independent : forall g s1 s2 v1 v2, (forall y, In y 
 Proof. exact discover_order_independent. Qed.
 Print Assumptions C18_discovery_order_independent.
 
+(* a directory is registered once however many files import it *)
+Theorem C18_discovery_registers_each_directory_once : forall g srcs v, discover g srcs = Some v -> NoDup v.
+Proof. exact discover_nodup. Qed.
+Print Assumptions C18_discovery_registers_each_directory_once.
+
+(* what is discovered for sources s1 and s2 named together is exactly what is discovered for each alone: no source's
+   components depend on the other sources of the same command line *)
+Theorem C18_discovery_of_sources_named_together : forall g s1 s2 v1 v2 v, discover g s1 = Some v1 -> discover g s2 = Some v2 ->
+  discover g (s1 ++ s2) = Some v -> forall x, In x v <-> In x v1 \/ In x v2.
+Proof. exact discover_union. Qed.
+Print Assumptions C18_discovery_of_sources_named_together.
+
 (* discovery terminates on every layout, mutually importing directories included: the work-list never runs out of fuel *)
 Theorem C18_discovery_terminates : forall g srcs, wf g -> (forall s, In s srcs -> s < length g) -> discover g srcs <> None.
 Proof. exact discover_terminates. Qed.
